@@ -852,11 +852,40 @@ fn load_phrases(phrases: &[String], file: &Option<String>, subset: &Option<Vec<u
     Ok(out)
 }
 
-fn own_words(db: &anything::Db, s: &shipped::Shipped, perms: Perms, only: &Option<Vec<usize>>, slot: usize) -> Event {
+/// Ask for one phrase and judge the answer against the words it was made of.
+fn own_words_ask(db: &anything::Db, phrase: &str, words: &[&str]) -> (Option<String>, Option<String>) {
+    let (results, descs) = eval_alone(db, phrase, true, false);
+    let mut why = None;
+    let mut winner = None;
+    if results.len() != 1 {
+        why = Some(format!("{} results", results.len()));
+    } else if let Res::Err { msg, .. } = &results[0] {
+        why = Some(format!("error: {msg}"));
+    } else if descs.len() != 1 {
+        why = Some(format!("{} descriptions", descs.len()));
+    } else {
+        let d = &descs[0];
+        if let Some(w) = words.iter().find(|w| !d.tokens.iter().any(|t| t == *w)) {
+            why = Some(format!("returned constant {:?} ({}) lacks the word {w:?}", d.tokens, d.description));
+        } else if !d.source_resolves {
+            why = Some(format!("source {:?} of {:?} does not resolve", d.source, d.description));
+        } else if let Res::Ok { num, den, unit, .. } = &results[0] {
+            if *num != d.num || *den != d.den || *unit != d.unit {
+                why = Some(format!("value {num}/{den} {unit} is not the described constant's {}/{} {}", d.num, d.den, d.unit));
+            }
+        }
+        winner = Some(d.description.clone());
+    }
+    (why, winner)
+}
+
+fn own_words(db: &anything::Db, s: &shipped::Shipped, perms: Perms, only: &Option<Vec<usize>>, again: Option<u64>, slot: usize) -> Event {
     let mut typeable = 0;
     let mut queries = 0;
     let mut fails = Vec::new();
     let mut winners: Vec<u8> = Vec::new();
+    // (constant index, plain phrase of its words in shipped order, winner of the plain sweep)
+    let mut plain: Vec<(usize, String, Option<String>)> = Vec::new();
     for (index, c) in s.constants.iter().enumerate() {
         if let Some(only) = only {
             if !only.contains(&index) {
@@ -882,38 +911,53 @@ fn own_words(db: &anything::Db, s: &shipped::Shipped, perms: Perms, only: &Optio
             }
             Perms::All => shipped::permutations(words.len(), 5040),
         };
-        for order in orders {
+        for (oi, order) in orders.into_iter().enumerate() {
             let pw: Vec<&str> = order.iter().map(|i| words[*i]).collect();
-            for phrase in shipped::typed_forms(&pw) {
+            for (fi, phrase) in shipped::typed_forms(&pw).into_iter().enumerate() {
                 queries += 1;
-                let (results, descs) = eval_alone(db, &phrase, true, false);
-                let mut why = None;
-                if results.len() != 1 {
-                    why = Some(format!("{} results", results.len()));
-                } else if let Res::Err { msg, .. } = &results[0] {
-                    why = Some(format!("error: {msg}"));
-                } else if descs.len() != 1 {
-                    why = Some(format!("{} descriptions", descs.len()));
-                } else {
-                    let d = &descs[0];
-                    if let Some(w) = words.iter().find(|w| !d.tokens.iter().any(|t| t == *w)) {
-                        why = Some(format!("returned constant {:?} ({}) lacks the word {w:?}", d.tokens, d.description));
-                    } else if !d.source_resolves {
-                        why = Some(format!("source {:?} of {:?} does not resolve", d.source, d.description));
-                    } else if let Res::Ok { num, den, unit, .. } = &results[0] {
-                        if *num != d.num || *den != d.den || *unit != d.unit {
-                            why = Some(format!("value {num}/{den} {unit} is not the described constant's {}/{} {}", d.num, d.den, d.unit));
-                        }
-                    }
+                let (why, winner) = own_words_ask(db, &phrase, &words);
+                if let Some(w) = &winner {
                     winners.extend_from_slice(phrase.as_bytes());
                     winners.push(0);
-                    winners.extend_from_slice(d.description.as_bytes());
+                    winners.extend_from_slice(w.as_bytes());
                     winners.push(0xff);
+                }
+                if oi == 0 && fi == 0 {
+                    plain.push((index, phrase.clone(), winner));
                 }
                 if let Some(why) = why {
                     fails.push(OwnWordsFail { index, phrase: phrase.clone(), why });
                 }
             }
+        }
+    }
+    if let Some(seed) = again {
+        // the same handle, other orders: A B A, then everything once more in a shuffled order
+        let mut ask_again = |index: usize, phrase: &str, before: &Option<String>, how: &str, queries: &mut usize, fails: &mut Vec<OwnWordsFail>| {
+            *queries += 1;
+            let words: Vec<&str> = s.constants[index].tokens.iter().map(|t| t.as_ref()).collect();
+            // only what the property states is judged (a constant carrying all the words, decoding
+            // completely); whether it is the same constant as before is C14's and C18's business
+            let _ = before;
+            let (why, _winner) = own_words_ask(db, phrase, &words);
+            if let Some(why) = why {
+                if !fails.iter().any(|f| f.index == index && f.phrase == phrase) {
+                    fails.push(OwnWordsFail { index, phrase: phrase.to_string(), why: format!("({how}) {why}") });
+                }
+            }
+        };
+        for i in 0..plain.len() {
+            let (ia, pa, wa) = plain[i].clone();
+            let (ib, pb, wb) = plain[(i + 1) % plain.len()].clone();
+            ask_again(ia, &pa, &wa, "before its successor", &mut queries, &mut fails);
+            ask_again(ib, &pb, &wb, "after its predecessor", &mut queries, &mut fails);
+            ask_again(ia, &pa, &wa, "after its successor", &mut queries, &mut fails);
+        }
+        let mut order: Vec<usize> = (0..plain.len()).collect();
+        anything_sim::rng::Rng::new(seed).shuffle(&mut order);
+        for i in order {
+            let (ia, pa, wa) = plain[i].clone();
+            ask_again(ia, &pa, &wa, "in a shuffled order", &mut queries, &mut fails);
         }
     }
     Event::OwnWords {
@@ -1302,7 +1346,7 @@ fn main() {
                 }
                 emit(&h.log, &Event::Answers { slot: *slot, count: answers.len(), answers });
             }
-            Op::OwnWords { slot, perms, only } => {
+            Op::OwnWords { slot, perms, only, again } => {
                 let Some(Some(db)) = slots.get(*slot) else { continue };
                 if shipped_cache.is_none() {
                     match shipped::load(&script.repo) {
@@ -1313,7 +1357,7 @@ fn main() {
                         }
                     }
                 }
-                let ev = own_words(db, shipped_cache.as_ref().unwrap(), *perms, only, *slot);
+                let ev = own_words(db, shipped_cache.as_ref().unwrap(), *perms, only, *again, *slot);
                 emit(&h.log, &ev);
             }
             Op::Interleave { slot, queries, acts, iso_slot, iso_fresh } => {
